@@ -136,7 +136,12 @@ def lib_dump(lib):
         if isinstance(k, bytes):
             vals = [float(x) for x in np.frombuffer(k, dtype=float)]
         else:
-            vals = [float(x) for x in k]
+            try:
+                vals = [float(x) for x in k]
+            except TypeError:
+                # a lookup key that is not the event's data (e.g. a hash of it): kept as an unmistakable pseudo key so
+                # that the history goes on (the comparison with the model then reports the keymap)
+                vals = [9.0e99, float(hash(k) % 1000003)]
         km.append((vals, int(v)))
     return {'data': data, 'type': typ, 'keymap': km, 'next': int(lib.next_free_ID)}
 
